@@ -534,7 +534,7 @@ def check_verdict_keys(ctx):
     found = 0
     for cname, (enum, member) in SUCCESS_MEMBER.items():
         cinfo = program.cls(f'{MOD}:{cname}')
-        meth = cinfo.methods.get('__bool__')
+        meth = program.find_method(cinfo, '__bool__')
         if meth is None:
             raise AnalysisError(f'VERDICT-KEYS: {cname}.__bool__ not found')
         members = read_int_enum(program, ENUM_HOME[enum], enum)
@@ -555,7 +555,10 @@ def check_verdict_keys(ctx):
                 evaluator = MiniEval(
                     enums, {'classify': classify},
                     lambda mname, cinfo=cinfo: program.find_method(cinfo,
-                                                                   mname))
+                                                                   mname),
+                    globals_fn=lambda name, mod=meth.module:
+                    mod.toplevel.get(name) if isinstance(
+                        mod.toplevel.get(name), ast.expr) else None)
                 try:
                     got = evaluator.truth(evaluator.call_function(meth.node))
                 except Unknown as err:
@@ -907,3 +910,58 @@ def check_cls_read(ctx):
                                 'only key was the success outcome gets '
                                 'more keys and its verdict becomes false '
                                 '(' + eff.describe() + ')')
+
+
+# -------------------------------------------------------------- ID-UNIQUE ---
+
+def check_id_unique(ctx):
+    """Every result gets ONE identifier that no other result has: the
+    by-labels index registers the position of the result in the complete list
+    (enumerate from 0).  Numbering a later batch from `len(index[<label>])`
+    counts the DISTINCT values of that label, not the results: two results
+    with the same test name make a later task re-use identifiers and distinct
+    results merge in the sets (OK + KO != total, negative missing count)."""
+    program = ctx.program
+    func = program.func(f'{MOD}:TestStatsTestsByLabels._build_index')
+    program.consulted.add(func.module.relpath)
+    n = 0
+    for loop in [l for l in walk_local(func.node) if isinstance(l, ast.For)]:
+        it = loop.iter
+        if not (isinstance(it, ast.Call) and call_name(it) == 'enumerate'):
+            continue
+        counter = loop.target.elts[0].id if isinstance(
+            loop.target, ast.Tuple) and isinstance(
+                loop.target.elts[0], ast.Name) else None
+        adds = [c for c in ast.walk(loop) if isinstance(c, ast.Call) and
+                call_name(c) == 'add' and c.args and
+                txt(c.args[0]) == counter]
+        if not adds:
+            continue
+        n += 1
+        start = it.args[1] if len(it.args) > 1 else next(
+            (k.value for k in it.keywords if k.arg == 'start'), None)
+        if start is None or (isinstance(start, ast.Constant) and
+                             start.value == 0):
+            ctx.holds('ID-UNIQUE', func, f'ids are positions in '
+                      f'{txt(it.args[0])[:30]} counted from 0',
+                      at=func.where(loop))
+            continue
+        defs = {}
+        for node in walk_local(func.node):
+            if isinstance(node, ast.Assign) and isinstance(
+                    node.targets[0], ast.Name):
+                defs[node.targets[0].id] = node.value
+        expr = defs.get(start.id, start) if isinstance(
+            start, ast.Name) else start
+        distinct = any(isinstance(c, ast.Call) and call_name(c) == 'len'
+                       and c.args and isinstance(c.args[0], ast.Subscript)
+                       for c in ast.walk(expr))
+        ctx.decide('ID-UNIQUE', func,
+                   f'ids start at {txt(expr)[:40]}',
+                   False if distinct else None, at=func.where(loop),
+                   detail='the length of an index entry counts the distinct '
+                          'values of a label, not the results registered so '
+                          'far: ids are re-used when two results share that '
+                          'value' if distinct else None)
+    ctx.floor('ID-UNIQUE', n, 1, 'enumerate loop registering ids in '
+              '_build_index')
